@@ -299,3 +299,66 @@ def c05_7(ctx):
         for p in ('holidays', 'weekend', 't0', 't1'):
             if kw(c, p) is None or U(kw(c, p)) != p:
                 ctx.fail(fn, st[0], 'Calendar(...) is not given %s = %s' % (p, p))
+
+
+@obligation('C05.8', 'MATCH argument roles + default chains', 'Calendar.adjust, add, bdays, drange; calendar()',
+            "adjust(t, 'f'/'p') must honour the adjustment GIVEN (then the calendar's own, then 'm'); add/bdays count from adjust(date, adj) with date and adj in their own roles; "
+            "drange resolves (t0, t1) in that order; registering a Calendar object stores it under its key",
+            axioms=())
+def c05_8(ctx):
+    r = ctx.repo
+    f = r.fn('_drange:Calendar.adjust')
+    ctx.count(1, f.where())
+    a = [s for s in f.body if isinstance(s, ast.Assign) and U(s.targets[0]) == 'adj']
+    if not a or N(a[0].value) != NS("(adj or self.adj or 'm').lower()"):
+        ctx.fail(f, a[0] if a else f.node, "the adjustment is resolved as `%s`, expected (adj or self.adj or 'm').lower(): first the one given" % (U(a[0].value) if a else 'nothing'))
+    tt = [N(s.value) for s in f.body if isinstance(s, ast.Assign) and U(s.targets[0]) == 't']
+    if tt[:2] != ['ymd(%s)' % f.params[1], 'datetime.datetime(t.year, t.month, t.day)']:
+        ctx.fail(f, f.node, 'the date is not reduced to its midnight (ymd, then a naive datetime) before stepping: %s' % tt[:2])
+    for c in calls_in(f.node, 'adjust'):
+        if len(c.args) == 2 and U(c.args[1]) in ('d', f.params[1]):
+            ctx.fail(f, c, 'recursive adjust is called with (adjustment, date): %s' % U(c))
+    for name in ('add', 'bdays'):
+        g = r.fn('_drange:Calendar.%s' % name)
+        ctx.count(1, g.where())
+        a = [s for s in g.body if isinstance(s, ast.Assign) and U(s.targets[0]) == 'adj']
+        if not a or N(a[0].value) != NS('adj or self.adj'):
+            ctx.fail(g, a[0] if a else g.node, '%s resolves the adjustment as `%s`, expected adj or self.adj' % (name, U(a[0].value) if a else 'nothing'))
+        for c in calls_in(g.node, 'adjust'):
+            if len(c.args) == 2 and U(c.args[1]) != 'adj':
+                ctx.fail(g, c, '%s calls %s: the date comes first, the adjustment second' % (name, U(c)))
+        for c in calls_in(g.node, 'add'):
+            if len(c.args) >= 2 and U(c.args[1]) != g.params[2]:
+                ctx.fail(g, c, 'recursive add is called as %s: (date, days) in that order' % U(c))
+    g = r.fn('_drange:Calendar.add')
+    t = [s for s in g.body if isinstance(s, ast.Assign) and U(s.targets[0]) == 't']
+    ctx.count(1)
+    if not t or N(t[0].value) != 'self.adjust(%s, adj)' % g.params[1]:
+        ctx.fail(g, t[0] if t else g.node, 'add does not count from self.adjust(date, adj): %s' % (U(t[0].value) if t else '?'))
+    d = r.fn('_drange:Calendar.drange')
+    ctx.count(1, d.where())
+    dr = [s for s in d.body if isinstance(s, ast.Assign) and isinstance(s.value, ast.Call) and call_name(s.value) == 'date_range']
+    if not dr or N(dr[0].targets[0]) != '(t0, t1)' or [U(x) for x in dr[0].value.args] != ['t0', 't1']:
+        ctx.fail(d, dr[0] if dr else d.node, 'endpoints are not resolved as t0, t1 = self.date_range(t0, t1)')
+    expect_guards(ctx, d, [("is_str(bump) and bump[-1] == 'b'", 'self._populate()', "business-day bumps ('kb') use the calendar table")], where=d.body)
+    rr = [x for x in returns_of(d.node) if isinstance(x.value, ast.Call) and call_name(x.value) == 'drange']
+    if not rr or [U(x) for x in rr[0].value.args] != ['t0', 't1', 'bump']:
+        ctx.fail(d, d.node, 'other bumps are not delegated to drange(t0, t1, bump)')
+    c = r.fn('_drange:calendar')
+    ctx.count(1, c.where())
+    top = [s for s in c.body if isinstance(s, ast.If) and N(s.test) == 'isinstance(key, Calendar)']
+    if not top:
+        ctx.fail(c, c.node, 'registering a Calendar object is no longer handled')
+    else:
+        inner = [s for s in top[0].body if isinstance(s, ast.If)]
+        if inner:
+            ok, w = prop_equiv(inner[0].test, 'holidays is None and weekend is None and t0 is None and t1 is None')
+            body = [U(x) for x in inner[0].body]
+            if not ok or body != ['calendars[key.key] = key', 'key = key.key']:
+                ctx.fail(c, inner[0], 'a Calendar passed without overrides is not stored as it is under its own key (when `%s`: %s)' % (U(inner[0].test), body), witness=w)
+            ov = {U(x.targets[0]): N(x.value) for x in inner[0].orelse if isinstance(x, ast.Assign)}
+            want = {'holidays': NS('holidays or list(key.holidays.keys())'), 'weekend': NS('weekend or key.weekend'), 't0': NS('t0 or key.t0'), 't1': NS('t1 or key.t1'), 'key': 'key.key',
+                    'calendars[key]': NS('Calendar(key, holidays=holidays, weekend=weekend, t0=t0, t1=t1)')}
+            if ov != want:
+                bad = [k for k in want if ov.get(k) != want[k]]
+                ctx.fail(c, inner[0], 'a Calendar passed with overrides is not re-registered with each override falling back to the old setting: %s' % {k: ov.get(k) for k in bad})
